@@ -107,6 +107,13 @@ Section EvalExt.
       match goal with H : _ = true |- _ => apply Bool.andb_true_iff in H; destruct H as [Hx' Hr'] end.
       rewrite (Hx Hx'). apply bind_ext; [reflexivity|]. intros y. apply bind_ext; [reflexivity|]. intros v.
       rewrite (IHr Hr'). reflexivity.
+    - (* ETuple *)
+      apply bind_ext; [|reflexivity].
+      match goal with HF : Forall _ items |- _ => induction HF as [|x r Hx _ IHr] end; [reflexivity|].
+      match goal with H : _ = true |- _ => apply Bool.andb_true_iff in H; destruct H as [Hx' Hr'] end.
+      destruct (slot_form x); [reflexivity|].
+      rewrite (Hx Hx'). apply bind_ext; [reflexivity|]. intros y. apply bind_ext; [reflexivity|]. intros y'.
+      rewrite (IHr Hr'). reflexivity.
   Qed.
 
   Lemma eval_cond_ext c cur : opt_hides P c = true -> eval_cond E1 cur c = eval_cond E2 cur c.
